@@ -3,7 +3,11 @@
 use std::sync::RwLock;
 
 #[derive(Clone, Copy, Debug, PartialEq, Eq)]
-pub enum SpawnerPoint { BeforeSpawnDecision, AfterLag, BeforeFinalSpawn }
+pub enum SpawnerPoint {
+    BeforeSpawnDecision,
+    AfterLag,
+    BeforeFinalSpawn,
+}
 
 pub struct Hooks {
     pub run_begin: Box<dyn Fn(usize, bool, usize, Option<usize>) + Send + Sync>,
@@ -14,14 +18,22 @@ pub struct Hooks {
 
 static HOOKS: RwLock<Option<Hooks>> = RwLock::new(None);
 
-pub fn install(h: Hooks) { *HOOKS.write().unwrap() = Some(h); }
-pub fn uninstall() { *HOOKS.write().unwrap() = None; }
+pub fn install(h: Hooks) {
+    *HOOKS.write().unwrap() = Some(h);
+}
+pub fn uninstall() {
+    *HOOKS.write().unwrap() = None;
+}
 
 pub(crate) fn run_begin(max_threads: usize, exact: bool, chunk: usize, len: Option<usize>) {
-    if let Some(h) = HOOKS.read().unwrap().as_ref() { (h.run_begin)(max_threads, exact, chunk, len) }
+    if let Some(h) = HOOKS.read().unwrap().as_ref() {
+        (h.run_begin)(max_threads, exact, chunk, len)
+    }
 }
 pub(crate) fn spawner_point(p: SpawnerPoint, num_spawned: usize, has_more: (u8, usize)) {
-    if let Some(h) = HOOKS.read().unwrap().as_ref() { (h.spawner_point)(p, num_spawned, has_more) }
+    if let Some(h) = HOOKS.read().unwrap().as_ref() {
+        (h.spawner_point)(p, num_spawned, has_more)
+    }
 }
 /// 0 = No, 1 = Maybe, 2 = Yes(remaining)
 pub(crate) fn encode_has_more(h: orx_concurrent_iter::HasMore) -> (u8, usize) {
@@ -36,12 +48,16 @@ pub use crate::core::verif_exports as exports;
 pub(crate) struct WorkerGuard;
 impl WorkerGuard {
     pub(crate) fn begin(chunk: usize) -> Self {
-        if let Some(h) = HOOKS.read().unwrap().as_ref() { (h.worker_begin)(chunk) }
+        if let Some(h) = HOOKS.read().unwrap().as_ref() {
+            (h.worker_begin)(chunk)
+        }
         WorkerGuard
     }
 }
 impl Drop for WorkerGuard {
     fn drop(&mut self) {
-        if let Some(h) = HOOKS.read().unwrap().as_ref() { (h.worker_end)(std::thread::panicking()) }
+        if let Some(h) = HOOKS.read().unwrap().as_ref() {
+            (h.worker_end)(std::thread::panicking())
+        }
     }
 }
